@@ -37,18 +37,19 @@ A_CAP = 'A-cap: Lru capacity exponent < 31 before a growth and fill counter < us
 A_HASH = 'A-hash: hashing is a deterministic function of the key (uninterpreted H); no other property of the hash is used, so every collision pattern is covered'
 A_CLONE = 'A-clone: Clone::clone of the cache key/value types returns an equal value (the builders instantiate them with Copy pointer types)'
 A_F64 = 'A-f64: the floating-point grow test of the Lru is replaced by an arbitrary function of (num_filled, cap) that can answer true only above half full; under C16 this fact is PROVED for the real condition text by the Kani harness k_lru_grow_test_only_above_half (all n, all cap < 32)'
+A_MODEL_ITER = 'A-model-iter: in unit robdd `PartialModel::assignment_iter()` (iterator-adapter chain over two BitSets) is a trusted stub yielding the sequence m.lits(); Literal is the two-field stub of A-lit'
 A_KANI = 'A-kani: soundness of Kani 0.68 / CBMC 6.11; kani::any() ranges over every bit pattern of the type'
 
 prop('C01',
      units=['ite', 'ptr', 'order', 'lru', 'cache', 'bottomup', 'builder', 'robdd'],
-     assumptions=[A_VERUS, A_EXTRACT, A_PTREQ, A_CELL, A_TERM, A_CAP, A_HASH, A_CLONE, A_F64],
+     assumptions=[A_VERUS, A_EXTRACT, A_PTREQ, A_CELL, A_MODEL_ITER, A_TERM, A_CAP, A_HASH, A_CLONE, A_F64],
      replay='bdd',
      explanation='every public BDD operation carries the postcondition  forall env. ptr_sem(result, env) == <definition>(ptr_sem(args..)), '
                  'with ptr_sem the structural denotation of a diagram; proved function by function against callee contracts, for an arbitrary '
                  'order closure in Ite::new, any VarOrder satisfying wf, and any IteTable implementation (both shipped adapters are proved to implement the contract)',
      not_covered=[
          'RobddBuilder::new_label / new_var: interior mutation of the order cannot be expressed through the RefCell stub; covered only by the composition of VarOrder::new_last (proved: old positions unchanged) with lemma_ordered_extend (proved) [+ bounded check `bdd`: new_var on 7 orders]',
-         'condition_model / cond_model_h: loop over PartialModel::assignment_iter (iterator adapter chain); its body is `condition`, which is proved [+ bounded check `bdd`]',
+         'condition_model / cond_model_h are under contract with ONE declared rewrite: the loop header `for m in m.assignment_iter()` iterates a trusted stub standing for the iterator-adapter chain (A-model-iter); that the iterator yields every assigned variable once with its value is not proved here [bounded check `bdd`: condition_model on models of 0-2 variables]',
          'RobddBuilder::new, VarOrder::linear_order (iterator chain)',
          '"a diagram keeps denoting the same function afterwards": by construction (ptr_sem depends only on immutable arena nodes; A-bump, A-unsafe), not a discharged obligation',
      ])
@@ -146,7 +147,7 @@ prop('C14',
 
 prop('C05',
      units=['bottomup', 'builder', 'ite', 'ptr', 'order', 'cache', 'lru', 'robdd'],
-     assumptions=[A_VERUS, A_EXTRACT, A_PTREQ, A_CELL, A_TERM, A_CAP, A_HASH, A_CLONE, A_F64],
+     assumptions=[A_VERUS, A_EXTRACT, A_PTREQ, A_CELL, A_MODEL_ITER, A_TERM, A_CAP, A_HASH, A_CLONE, A_F64],
      replay='compile',
      explanation='compile_logical_expr(e) and compile_plan(p) (trait default methods, generic in the pointer type) denote expr_sem(e) / plan_sem(p), the structural meaning of the enum; '
                  'collapse_clauses denotes the conjunction of its slice and is None exactly for the empty slice; for the BDD builder the operations they call are the ones proved under C01 (same units), for any variable order',
@@ -159,7 +160,7 @@ prop('C05',
 prop('C02',
      units=['ptr', 'bottomup', 'builder', 'robdd', 'table', 'canonthm'],
      kani=[{'name': 'k_next_power_of_two_ge'}],
-     assumptions=[A_VERUS, A_EXTRACT, A_PTREQ, A_CELL, A_TERM, A_CLONE,
+     assumptions=[A_VERUS, A_EXTRACT, A_PTREQ, A_CELL, A_MODEL_ITER, A_TERM, A_CLONE,
                   'A-bump: bumpalo::Bump::alloc returns a reference to a value equal to its argument that is never moved, freed or mutated while the arena lives',
                   'A-psl: a probe sequence is shorter than min(255, cap) (u8 probe counter, no wrap around the whole table); assumed exactly where the counters are incremented',
                   'A-cap: node count < usize::MAX and capacity < 2^62; usize::next_power_of_two returns a value >= its argument',
